@@ -231,15 +231,16 @@ def check_exponents(ctx, P, cfg, backend):
     fn = P.fn("curve25519::fe::%s::Fe::square_repeatdly" % backend)
     lps = [l for l in rules.iter_loops(fn) if any(s[0] == "range" for s in l["sources"])]
     inline_form = len(lps) == 1 and lps[0]["sources"] == [("range", ("0", "arg2"))] and not lps[0]["early_exits"] and not [c for c in fn.calls() if fexpr.SQUARE.search(c.name())]
-    ok = len(lps) == 1 and lps[0]["sources"] == [("range", ("1", "arg2"))] and not lps[0]["early_exits"]
+    ok = len(lps) == 1 and lps[0]["sources"] == [("range", ("0", "arg2"))] and not lps[0]["early_exits"]
     if inline_form:
         # n iterations of an inlined squaring step (its limb arithmetic is covered by the radix rules of C15)
         ok = True
     elif ok:
+        # acc = copy of self; n iterations of acc = acc.square()   (a squaring before a loop over 1..n would give x^2 for n = 0)
         sq_in = [c for c in rules.calls_between(fn, lps[0]["some"], {lps[0]["call"].bb}) if fexpr.SQUARE.search(c.name())]
         sq_all = [c for c in fn.calls() if fexpr.SQUARE.search(c.name())]
         ret = fexpr.strip(fn.local_expr(0))
-        ok = len(sq_in) == 1 and len(sq_all) == 2 and ret[0] == "var"
+        ok = len(sq_in) == 1 and len(sq_all) == 1 and ret[0] == "var"
         if ok:
             acc = ret[1]
             defs = rules.var_defs(fn, acc)
@@ -249,8 +250,8 @@ def check_exponents(ctx, P, cfg, backend):
                 if b in lps[0]["body"]:
                     ok = ok and e[0] == "call" and fexpr.SQUARE.search(e[1]) and fexpr.strip(e[2][0]) == ("var", acc)
                 else:
-                    ok = ok and e[0] == "call" and fexpr.SQUARE.search(e[1]) and pred.canon(e[2][0], fn) == "arg1"
-    ctx.check(ok, "exponent", "%s::square_repeatdly[%s]" % (backend, cfg), "square_repeatdly(n) = one squaring then n-1 more", "Fe::square_repeatdly does not perform exactly n squarings", where=fn.where(), key="exponent:%s::square_repeatdly" % backend)
+                    ok = ok and ((e[0] == "call" and e[1].endswith("Clone>::clone") and pred.canon(e[2][0], fn) == "arg1") or pred.canon(e, fn) in ("arg1", "*arg1", "deref(arg1)"))
+    ctx.check(ok, "exponent", "%s::square_repeatdly[%s]" % (backend, cfg), "square_repeatdly(n) = n squarings of a copy of self (n = 0 is the identity)", "Fe::square_repeatdly does not perform exactly n squarings", where=fn.where(), key="exponent:%s::square_repeatdly" % backend)
 
 
 PANIC = re.compile(r"^core::panicking::(panic|panic_fmt|assert_failed|panic_explicit|unreachable_display|panic_nounwind)|^core::option::(expect|unwrap)_failed|^core::result::unwrap_failed")
